@@ -306,7 +306,10 @@ def pool_map(fn, reqs, workers=8):
   if not reqs:
     return []
   with multiprocessing.get_context("fork").Pool(min(workers, len(reqs))) as pool:
-    return pool.map(fn, reqs, chunksize=1)
+    res = pool.map(fn, reqs, chunksize=1)
+    pool.close()
+    pool.join()   # let the workers exit normally (coverage measurement of the workers, tools/covrun.sh)
+    return res
 
 
 def known_finding_request():
